@@ -1069,8 +1069,8 @@ class HookHarness:
                 violation(self.case, "%s: expected exactly one direct request %s, saw %s" % (
                     where, what, [(c["via"], c["url"]) for c in calls]))
             d = tail[0]
-            if d["url"] != url or d["method"] != method:
-                violation(self.case, "%s: direct request went to %s %s instead of %s %s" % (where, d["method"], d["url"], method, url))
+            if d["url"] != url:
+                violation(self.case, "%s: direct request went to %s instead of the provider %s" % (where, d["url"], url))
             if direct == "ok":
                 if escaped is not None:
                     violation(self.case, "%s: direct request succeeded but %r was raised into the application" % (where, escaped))
@@ -1083,12 +1083,7 @@ class HookHarness:
 
         if routed:
             self.n_gateway += 1
-            g = calls[0]
-            gu = urlsplit(g["url"])
-            if gu.path != "/v1/items" or g["method"] != method:
-                violation(self.case, "%s: gateway request altered method/path: %s %s" % (where, g["method"], g["url"]))
-            if g["headers"].get("x-lunar-host") != host:
-                violation(self.case, "%s: gateway request does not name the destination: x-lunar-host=%r" % (where, g["headers"].get("x-lunar-host")))
+            g = calls[0]  # how the gateway request is shaped (headers, path) is not part of the statement
             if gw == "ok":
                 if len(calls) != 1:
                     violation(self.case, "%s: successful gateway call followed by further requests %s" % (where, [(c["via"]) for c in calls]))
@@ -1574,6 +1569,13 @@ def main():
     if a.test not in TESTS:
         infra_exit("unknown test %s" % a.test)
     fn, replay_fn, needs_hook = TESTS[a.test]
+    # Hypothesis keeps caches in ./.hypothesis unless told otherwise: put them into the job's scratch dir
+    import atexit
+    import shutil
+    import tempfile
+    hyp_home = tempfile.mkdtemp(prefix="c19-hypothesis-")
+    atexit.register(shutil.rmtree, hyp_home, True)
+    os.environ["HYPOTHESIS_STORAGE_DIRECTORY"] = hyp_home
     try:
         import hypothesis  # noqa: F401
     except Exception as e:  # noqa: BLE001
